@@ -59,9 +59,12 @@ type Metric struct {
 	Compound *Compound   `json:"-"`
 	CompStr  string      `json:"compound,omitempty"`
 	Line     []LineField `json:"line,omitempty"` // non nil: the metric is expressible as line protocol with exactly these pairs
-	NilTag   int         `json:"nilTag"`         // protobuf only: index of a nil *KeyValue (-1 none)
-	NilField int         `json:"nilField"`       // protobuf only: index of a nil *SimpleField (-1 none)
-	Inject   []string    `json:"inject,omitempty"`
+	// LineTSForm: how the timestamp is written in the line: "" plain decimal, "pad1"/"pad3" zero padded, "plus" with a
+	// leading '+' (all decimal, same value), "hex"/"bin"/"oct"/"underscore" (not decimal: the line is invalid)
+	LineTSForm string   `json:"lineTsForm,omitempty"`
+	NilTag     int      `json:"nilTag"`   // protobuf only: index of a nil *KeyValue (-1 none)
+	NilField   int      `json:"nilField"` // protobuf only: index of a nil *SimpleField (-1 none)
+	Inject     []string `json:"inject,omitempty"`
 	// flat only knobs
 	FlatOmitName bool `json:"flatOmitName,omitempty"`
 	FlatPad      int  `json:"flatPad,omitempty"` // extra bytes (as exemplars) to inflate the input row
@@ -322,6 +325,9 @@ func invalidReason(m *Metric, env *Env, format string, flatInputSize int) string
 	if format == fmtFlat && flatInputSize > 10*1024 {
 		return "flat-row-over-10KiB"
 	}
+	if format == fmtLine && m.TS != 0 && lineTSNotDecimal(m.LineTSForm) {
+		return "line-timestamp-not-decimal" // line protocol integers are decimal: ErrBadTimestamp, the whole line is rejected
+	}
 	if m.Name == "" || (format == fmtFlat && m.FlatOmitName) {
 		return "empty-name"
 	}
@@ -569,4 +575,12 @@ func wellFormed(r *Row) string {
 		}
 	}
 	return ""
+}
+
+func lineTSNotDecimal(form string) bool {
+	switch form {
+	case "hex", "bin", "oct", "underscore":
+		return true
+	}
+	return false
 }
